@@ -300,6 +300,7 @@ class Host(utils.EventEmitter):
         self.suggested_max_tx_octets = 251  # Max allowed
         self.suggested_max_tx_time = 2120  # Max allowed
         self.command_semaphore = asyncio.Semaphore(1)
+        self.transport_lost = False
         self.long_term_key_provider = None
         self.link_key_provider = None
         self.pairing_io_capability_provider = None  # Classic only
@@ -670,6 +671,7 @@ class Host(utils.EventEmitter):
     def set_packet_source(self, source: TransportSource) -> None:
         source.set_packet_sink(self)
         self.hci_metadata = getattr(source, 'metadata', self.hci_metadata)
+        self.transport_lost = False
 
     def send_hci_packet(self, packet: hci.HCI_Packet) -> None:
         logger.debug(f'{color("### HOST -> CONTROLLER", "blue")}: {packet}')
@@ -685,6 +687,11 @@ class Host(utils.EventEmitter):
     ) -> hci.HCI_Command_Complete_Event | hci.HCI_Command_Status_Event:
         # Wait until we can send (only one pending command at a time)
         await self.command_semaphore.acquire()
+
+        # Nothing can be sent, and no response will come, once the transport is lost
+        if self.transport_lost:
+            self.command_semaphore.release()
+            raise TransportLostError('transport lost')
 
         # Create a future value to hold the eventual response
         assert self.pending_command is None
@@ -1005,6 +1012,7 @@ class Host(utils.EventEmitter):
 
     def on_transport_lost(self):
         # Called by the source when the transport has been lost.
+        self.transport_lost = True
         if self.pending_response and not self.pending_response.done():
             self.pending_response.set_exception(TransportLostError('transport lost'))
 
